@@ -24,7 +24,8 @@ theorem facts_match : FactsC13.internalErrorHasUnwrap = Expected.C13.internalErr
     FactsC13.goSites.all (·.2) = Expected.C13.execRecovers ∧
     FactsC13.loopReportsCtxErr = Expected.C13.loopReportsCtxErr ∧
     FactsC13.convForwarderRecovers = Expected.C13.convForwarderRecovers ∧
-    FactsC13.childForwarderRecovers = Expected.C13.childForwarderRecovers := by
+    FactsC13.childForwarderRecovers = Expected.C13.childForwarderRecovers ∧
+    FactsC13.errorTextMemoised = Expected.C13.errorTextMemoised := by
   decide
 
 /-- the facts of the step model as regenerated from /repo: every framework goroutine site
@@ -209,6 +210,50 @@ theorem deadline_misreported_with_fixed_sentinel :
     errorsIs true (ctxEndThrough true false [⟨"sub", []⟩] 1 .deadline) deadlineId = false ∧
     errorsIs true (ctxEndThrough true false [⟨"sub", []⟩] 1 .deadline) canceledId = true ∧
     ctxEndThrough true false [⟨"sub", []⟩] 1 .canceled = ctxEndThrough true true [⟨"sub", []⟩] 1 .canceled := by decide
+
+/-! ## what the caller reads: the text of the error, whoever read it on the way out -/
+
+/-- **text_names_node_path.** Whatever happened to the error between the failing body and the
+    caller — any number of enclosing graphs prepending their key to the same error object, any
+    number of readers of `err.Error()` at any inner level (logging `OnError` handlers), any number
+    of `fmt.Errorf("…: %w", err)` layers (a lambda or tool that runs a compiled graph) in any
+    order — the path the TEXT of the returned error names is the path its `nodePath` field holds. -/
+theorem text_names_node_path (hops : List Hop) (e : GoErr) :
+    textPath (travel FactsC13.internalErrorHasUnwrap FactsC13.errorTextMemoised hops e)
+    = nodePath (travel FactsC13.internalErrorHasUnwrap FactsC13.errorTextMemoised hops e).err := by
+  have hm : FactsC13.errorTextMemoised = false := by decide
+  rw [hm]; exact textPath_travel_noMemo _ hops e
+
+/-- **text_path_is_key_path.** … and for a user error that path is exactly the keys of the
+    enclosing graphs, outermost first — "the run returns an error that names the failing node path
+    (through nested graphs)", as a caller holding only the public API can read it. -/
+theorem text_path_is_key_path (hops : List Hop) (e : GoErr) (h : userErr e = true) :
+    textPath (travel FactsC13.internalErrorHasUnwrap FactsC13.errorTextMemoised hops e)
+    = (hopKeys hops).reverse := by
+  rw [text_names_node_path]
+  have hf : FactsC13.internalErrorHasUnwrap = true := by decide
+  have hm : FactsC13.errorTextMemoised = false := by decide
+  rw [hf, hm]; unfold travel
+  rw [(foldl_hop_path hops _ (userErr_not_interrupt h)).1]
+  simp [nodePath, userErr_no_internal h]
+
+/-- … and observers change nothing else either: `errors.Is` is as on the original error -/
+theorem observed_orig_recoverable (hops : List Hop) (e : GoErr) (t : Nat) :
+    errorsIs FactsC13.internalErrorHasUnwrap
+      (travel FactsC13.internalErrorHasUnwrap FactsC13.errorTextMemoised hops e).err t
+    = errorsIs FactsC13.internalErrorHasUnwrap e t := by
+  have hf : FactsC13.internalErrorHasUnwrap = true := by decide
+  rw [hf]; exact errorsIs_travel _ hops e t
+
+/-- negation witness (the seeded change C13-51): with a memoised text, one reader at the innermost
+    level freezes the text at `[leaf]` while the field (and `errors.Is`) go on to the full path; the
+    same hops without memoisation name the full path; without a reader memoisation does no harm. -/
+theorem stale_text_with_memoised_error :
+    textPath (travel true true [.wrap "leaf", .observe, .wrap "mid", .wrap "outer"] (.leaf 1)) = ["leaf"] ∧
+    nodePath (travel true true [.wrap "leaf", .observe, .wrap "mid", .wrap "outer"] (.leaf 1)).err = ["outer", "mid", "leaf"] ∧
+    textPath (travel true false [.wrap "leaf", .observe, .wrap "mid", .wrap "outer"] (.leaf 1)) = ["outer", "mid", "leaf"] ∧
+    textPath (travel true true [.wrap "step", .rewrap, .wrap "tools"] (.leaf 1)) = ["step"] ∧
+    textPath (travel true true [.wrap "leaf", .wrap "mid", .wrap "outer"] (.leaf 1)) = ["outer", "mid", "leaf"] := by decide
 
 /-! ## stream-forwarding goroutines (schema/stream.go) -/
 
